@@ -516,6 +516,9 @@ def _drive(case):
             exc = None
         except (ServiceError, EquipmentConfigError, NetworkTopologyError, DisjunctionError, ValueError) as e:
             sigs, exc = {}, type(e).__name__
+        except Exception as e:
+            e._under_test = True                                       # anything else out of planning(): reported with its input
+            raise
         j1, d1 = snapshot(E.net)
         rec = {'name': name, 'order': [r['request-id'] for r in rs], 'sigs': sigs, 'exc': exc,
                'net': digest([j1, d1]), 'json_same': j1 == j0, 'deep_diff': snap_diff(d0, d1) if d1 != d0 else []}
@@ -720,8 +723,15 @@ def judge(ctx, case, obs):
     return ok
 
 
+def _drive_worker(case):
+    try:
+        return drive(case)
+    except Exception as e:                                             # noqa: returned as an observation
+        return {'crash': c13.crash_record(e)}
+
+
 def pmap_drive(cases):
-    return c13.pmap(drive, cases)
+    return c13.pmap(_drive_worker, cases)
 
 
 def run(ctx):
@@ -753,6 +763,13 @@ def run(ctx):
         cases += [gen_sync_case(rng) for _ in range(ctx.scale(20, 160))]
     terms, meta = [], []
     all_obs = pmap_drive(cases)
+    crashed = [(c, obs) for c, obs in zip(cases, all_obs) if obs.get('crash')]
+    for c, obs in crashed:
+        ctx.case(case_public(c), False)
+        ctx.count('crashes')
+        c13.report_crash(ctx, case_public(c), obs['crash'])
+    keep = [(c, obs) for c, obs in zip(cases, all_obs) if not obs.get('crash')]
+    cases, all_obs = [c for c, _ in keep], [o for _, o in keep]
     for c, obs in zip(cases, all_obs):
         batch = obs['runs'][0]
         reasons = [s['reason'] for s in batch['sigs'].values()]
